@@ -469,3 +469,10 @@ fn debug_assert_nones(ptr: NonNull<CcBox<()>>) {
         debug_assert!((*ptr.as_ref().get_prev()).is_none());
     }
 }
+
+#[cfg(rust_cc_verif)]
+impl LinkedQueue {
+    pub(crate) fn verif_last(&self) -> Option<NonNull<CcBox<()>>> {
+        self.last
+    }
+}
